@@ -146,6 +146,16 @@ let eval (w : string array) : float list =
     let g = group () in
     let q = optimal_q (List.split (fit_pairs fops rf g)) in
     [cv_rmsd_perm fops q rf perms g]
+  | "coordNumRuns" ->
+    (* pair list over steps and runs: frequency, parameters, number of runs, per run: number of frames, frames (two groups each) *)
+    let freq = ni () in
+    let r0 = nf () in let aniso = ni () <> 0 in let r0v = v3 () in
+    let en = ni () in let ed = ni () in let tol = nf () in
+    let rv = if aniso then Some r0v else None in
+    let nruns = ni () in
+    let runs = List.init nruns (fun _ -> let nfr = ni () in List.init nfr (fun _ -> let g1 = group () in let g2 = group () in (g1, g2))) in
+    (* the list before the first run is irrelevant (every run starts with a rebuild): start from an empty one *)
+    List.concat (pl_session fops (z_of_int freq) r0 rv (z_of_int en) (z_of_int ed) tol cell [] runs)
   | "fitcart" ->
     (* cartesian coordinates of a group fitted through fitg: rotate flag, reference, fitting group, group *)
     let rot = ni () <> 0 in
